@@ -41,10 +41,21 @@ func impostor() {
 	rd := bufio.NewReader(stdout)
 	line, _ := rd.ReadString('\n')
 	parts := strings.Split(strings.TrimRight(line, "\n"), "|")
-	if len(parts) >= 6 {
-		certPEM, _, _ := vp.StaticTLS()
-		blk, _ := pem.Decode([]byte(certPEM))
-		parts[5] = base64.RawStdEncoding.EncodeToString(blk.Bytes)
+	switch os.Getenv("VPLUGIN_IMPOSTOR") {
+	case "dropmux": // an old plugin: never prints the multiplexing field
+		if len(parts) > 6 {
+			parts = parts[:6]
+		}
+	case "muxfalse": // a plugin that says it does not support multiplexing
+		if len(parts) > 6 {
+			parts[6] = "false"
+		}
+	default:
+		if len(parts) >= 6 {
+			certPEM, _, _ := vp.StaticTLS()
+			blk, _ := pem.Decode([]byte(certPEM))
+			parts[5] = base64.RawStdEncoding.EncodeToString(blk.Bytes)
+		}
 	}
 	fmt.Println(strings.Join(parts, "|"))
 	os.Stdout.Sync()
